@@ -1,0 +1,129 @@
+//go:build verif
+
+package wallet
+
+// Machine-checked contracts for package wallet, read by /verif/gocv. Comments
+// only; compiled solely under the build tag "verif".
+//
+// ---------------------------------------------------------------------------
+// C20: seed phrases and derived keys (bit-vector mode, loops unrolled with an
+// unwinding obligation because their trip counts are literals).
+//
+// Word tables: never reassigned after package initialisation.
+//@ data bip39EnglishWordList wordMap
+//
+// strings.Fields / strings.Join are modelled through these functions (assumption A1):
+//@ spec func fieldsLen(s string) int
+//@ spec func fieldsAt(s string, i int) string
+//@ spec func strJoin12(sep string, w0, w1, w2, w3, w4, w5, w6, w7, w8, w9, w10, w11 string) string
+//@ spec func isField(w string) bool
+// Fields(Join(ws, " ")) == ws for words that are non-empty and contain no white space (std-lib, sampled):
+//@ axiom forall w0, w1, w2, w3, w4, w5, w6, w7, w8, w9, w10, w11 string :: { strJoin12(" ", w0, w1, w2, w3, w4, w5, w6, w7, w8, w9, w10, w11) }
+//@   isField(w0) && isField(w1) && isField(w2) && isField(w3) && isField(w4) && isField(w5) && isField(w6) && isField(w7) && isField(w8) && isField(w9) && isField(w10) && isField(w11)
+//@   ==> fieldsLen(strJoin12(" ", w0, w1, w2, w3, w4, w5, w6, w7, w8, w9, w10, w11)) == 12
+//@    && fieldsAt(strJoin12(" ", w0, w1, w2, w3, w4, w5, w6, w7, w8, w9, w10, w11), 0) == w0
+//@    && fieldsAt(strJoin12(" ", w0, w1, w2, w3, w4, w5, w6, w7, w8, w9, w10, w11), 1) == w1
+//@    && fieldsAt(strJoin12(" ", w0, w1, w2, w3, w4, w5, w6, w7, w8, w9, w10, w11), 2) == w2
+//@    && fieldsAt(strJoin12(" ", w0, w1, w2, w3, w4, w5, w6, w7, w8, w9, w10, w11), 3) == w3
+//@    && fieldsAt(strJoin12(" ", w0, w1, w2, w3, w4, w5, w6, w7, w8, w9, w10, w11), 4) == w4
+//@    && fieldsAt(strJoin12(" ", w0, w1, w2, w3, w4, w5, w6, w7, w8, w9, w10, w11), 5) == w5
+//@    && fieldsAt(strJoin12(" ", w0, w1, w2, w3, w4, w5, w6, w7, w8, w9, w10, w11), 6) == w6
+//@    && fieldsAt(strJoin12(" ", w0, w1, w2, w3, w4, w5, w6, w7, w8, w9, w10, w11), 7) == w7
+//@    && fieldsAt(strJoin12(" ", w0, w1, w2, w3, w4, w5, w6, w7, w8, w9, w10, w11), 8) == w8
+//@    && fieldsAt(strJoin12(" ", w0, w1, w2, w3, w4, w5, w6, w7, w8, w9, w10, w11), 9) == w9
+//@    && fieldsAt(strJoin12(" ", w0, w1, w2, w3, w4, w5, w6, w7, w8, w9, w10, w11), 10) == w10
+//@    && fieldsAt(strJoin12(" ", w0, w1, w2, w3, w4, w5, w6, w7, w8, w9, w10, w11), 11) == w11
+//
+// Facts about the package data, established on every run by exhaustive evaluation of the real
+// tables (replay/templates/c20_data_test.go: 2048 entries, enumerated-exhaustive):
+//@ axiom len(bip39EnglishWordList) == 2048
+//@ axiom forall i int :: { bip39EnglishWordList[i] } 0 <= i && i < 2048 ==> isField(bip39EnglishWordList[i]) && (bip39EnglishWordList[i] in wordMap) && wordMap[bip39EnglishWordList[i]] == uint64(i)
+//@ axiom forall w string :: { w in wordMap } w in wordMap ==> wordMap[w] < 2048 && bip39EnglishWordList[wordMap[w]] == w
+//
+//@ extern crypto/sha256.Sum256 pure
+//@ extern golang.org/x/crypto/blake2b.Sum256 pure
+//@ extern types.NewPrivateKeyFromSeed pure
+//
+//@ func bip39checksum props C20
+//@   mode bv64
+//@   nopanic
+//@   inline
+//@   requires entropy != nil
+//@   ensures [range] result < 16
+//
+//@ func encodeBIP39Phrase props C20
+//@   mode bv64
+//@   nopanic
+//@   inline
+//@   requires entropy != nil
+//@   loop "for i >= 0" unroll 11
+//@   ensures [frame] *entropy == old(*entropy)
+//
+//@ func decodeBIP39Phrase props C20
+//@   mode bv64
+//@   nopanic
+//@   inline
+//@   requires entropy != nil
+//@   loop "range words" unroll 12
+//@   loop "range words[:len(words)-1]" unroll 11
+//@   ensures [count] fieldsLen(phrase) != 12 ==> result != nil
+//@   ensures [unknown0] fieldsLen(phrase) == 12 && !(fieldsAt(phrase, 0) in wordMap) ==> result != nil
+//@   ensures [unknown5] fieldsLen(phrase) == 12 && !(fieldsAt(phrase, 5) in wordMap) ==> result != nil
+//@   ensures [unknown11] fieldsLen(phrase) == 12 && !(fieldsAt(phrase, 11) in wordMap) ==> result != nil
+//
+//@ lemma lemmaEncodeDecode props C20
+//@   mode bv64
+//@   nopanic
+//@   requires e != nil
+//@   ensures [roundtrip] err == nil && d == old(*e)
+//
+//@ lemma lemmaDecodeEncode props C20
+//@   mode bv64
+//@   nopanic
+//@   ensures [reencode] err == nil ==> fieldsLen(phrase) == 12 && q == strJoin12(" ", fieldsAt(phrase, 0), fieldsAt(phrase, 1), fieldsAt(phrase, 2), fieldsAt(phrase, 3),
+//@        fieldsAt(phrase, 4), fieldsAt(phrase, 5), fieldsAt(phrase, 6), fieldsAt(phrase, 7), fieldsAt(phrase, 8), fieldsAt(phrase, 9), fieldsAt(phrase, 10), fieldsAt(phrase, 11))
+//
+//@ pred wellFormed(p string) = fieldsLen(p) == 12 && (fieldsAt(p, 0) in wordMap) && (fieldsAt(p, 1) in wordMap) && (fieldsAt(p, 2) in wordMap) && (fieldsAt(p, 3) in wordMap)
+//@     && (fieldsAt(p, 4) in wordMap) && (fieldsAt(p, 5) in wordMap) && (fieldsAt(p, 6) in wordMap) && (fieldsAt(p, 7) in wordMap)
+//@     && (fieldsAt(p, 8) in wordMap) && (fieldsAt(p, 9) in wordMap) && (fieldsAt(p, 10) in wordMap) && (fieldsAt(p, 11) in wordMap)
+//@ lemma lemmaChecksumIff props C20
+//@   mode bv64
+//@   nopanic
+//@   ensures [iff] wellFormed(phrase) ==> (ok <==> (last & 15) == cs)
+//@   ensures [malformed] !wellFormed(phrase) ==> !ok
+//
+//@ func SeedFromPhrase props C20
+//@   mode bv64
+//@   nopanic
+//@   inline
+//@   requires seed != nil
+//
+//@ func KeyFromSeed props C20
+//@   mode bv64
+//@   nopanic
+//@   inline
+//@   requires seed != nil
+//@   ensures [frame] *seed == old(*seed)
+//
+//@ func memclr props C20
+//@   mode bv64
+//@   nopanic
+//@   assigns elems:byte
+//@   loop "range p"
+//@     invariant -1 <= rangeindex && rangeindex <= len(p) - 1 && elemsUnchangedExcept(p)
+//@     invariant forall j int :: { p[j] } 0 <= j && j <= rangeindex ==> p[j] == 0
+//@   ensures [frame] elemsUnchangedExcept(p)
+//@   ensures [zero] forall j int :: { p[j] } 0 <= j && j < len(p) ==> p[j] == 0
+//
+//@ lemma lemmaSeedWhitespace props C20
+//@   mode bv64
+//@   nopanic
+//@   requires fieldsLen(p1) == fieldsLen(p2) && (forall i int :: { fieldsAt(p1, i) } fieldsAt(p1, i) == fieldsAt(p2, i))
+//@   ensures [same] (err1 == nil <==> err2 == nil) && (err1 == nil ==> s1 == s2)
+//
+//@ lemma lemmaKeyDeterministic props C20
+//@   mode bv64
+//@   nopanic
+//@   requires seed != nil
+//@   ensures [same] k1 == k2
+//@   ensures [frame] *seed == old(*seed)
